@@ -487,8 +487,19 @@ def r4_species(ctx):
     def table(kind, form, sign):
         present = {"iso+ion": (True, True, False, False), "iso": (False, False, True, False), "ion": (False, False, False, True), "none": (False, False, False, False)}[form]
 
-        def atom(e):
+        def atom(e, _depth=[0]):
             k = norm(e)
+            if _depth[0] == 0 and isinstance(e, ast.Compare) and any(isinstance(x, ast.BoolOp) for x in ast.walk(e)):
+                # `(a or b) == '-'`: pick the operand the presence valuation selects, then decide the comparison
+                from ..flowexpr import reduce_ifexp, truth
+                pres = lambda x: {f"{G}[{i}]": p_ for i, p_ in zip((2, 3, 4, 5), present)}.get(norm(x))   # noqa: E731
+                e2 = reduce_ifexp(e, pres)
+                if norm(e2) != k:
+                    _depth[0] += 1
+                    try:
+                        return truth(e2, atom)
+                    finally:
+                        _depth[0] -= 1
             if k == Mtxt:
                 return True
             if isinstance(e, ast.Call) and dotted_name(e.func) == "re.match":
@@ -533,6 +544,20 @@ def r4_species(ctx):
         cs, unk, iso, ion, el = table(kind, "none", None)
         first = [next((norm(e.resolved) for e in q.events if e.kind == "store" and e.extra == "self.isotope"), None) for q in cs]
         ctx.form(bool(cs) and not unk and el == ["'H'"] and all(f == f"int({a})" for f in first), EL, "Element.__init__", f"{kind} is hydrogen {a}", detail=[el, sorted(set(first))])
+        # the short symbols accept the same charge suffixes as H{2} / H{3}: the charge must not be dropped
+        for form, gi in (("ion", 5), ("iso+ion", 3)):
+            cs, unk, iso, ion, el = table(kind, form, None)
+            from ..flowexpr import reduce_ifexp
+            present = {"iso+ion": (True, True, False, False), "ion": (False, False, False, True)}[form]
+            at = lambda e_, _p=present: {f"{G}[{i}]": v for i, v in zip((2, 3, 4, 5), _p)}.get(norm(e_))   # noqa: E731
+            pairs = sorted({(next((norm(reduce_ifexp(e.resolved, at)) for e in q.events if e.kind == "store" and e.extra == "self.isotope"), None),
+                             next((norm(reduce_ifexp(e.resolved, at)) for e in q.events if e.kind == "store" and e.extra == "self.ionisation"), None)) for q in cs})
+            if unk or not cs:
+                ctx.unrecognised(EL, "Element.__init__", f"{kind} with a charge suffix ({form}) keeps the charge", f"tests not decided: {sorted(set(unk))[:2]}")
+                continue
+            want = (f"int({a})", f"int({G}[{gi}])")
+            ctx.check(pairs == [want], EL, "Element.__init__", f"{kind} with a charge suffix ({form}) keeps the charge",
+                      detail=[list(p_) for p_ in pairs], expected=[f"int({a})", f"int(groups[{gi}])"])
     sel = [n for n in ast.walk(fn) if isinstance(n, ast.If) and norm(n.test) == "self.isotope"]
     ok = len(sel) == 1 and "self.get_isotope(" in norm(sel[0].body[0]) and len(sel[0].orelse) == 1 and isinstance(sel[0].orelse[0], ast.If) \
         and norm(sel[0].orelse[0].test) == "self.natural" and "self.get_natural(" in norm(sel[0].orelse[0].body[0]) \
